@@ -29,7 +29,7 @@ def run(root, tag, seed, n_hist, trace_path, concurrent_every=3):
             for b in range(rng.randint(3, 5) if par else rng.randint(6, 14)):
                 batch = []; newly = []
                 for j in range(4 if par else 1):
-                    k = rng.choice(['new', 'repeat', 'repeat', 'fail', 'pperr', 'dashE', 'version', 'unsupported', 'fatal'] + ([] if par else ['zero']))
+                    k = rng.choice(['new', 'repeat', 'repeat', 'fail', 'pperr', 'dashE', 'version', 'unsupported', 'unreachable', 'fatal'] + ([] if par else ['zero']))
                     if k == 'fatal' and (not known or recache or readonly): k = 'new'
                     if k == 'repeat' and not known: k = 'new'
                     if k == 'new':
@@ -52,9 +52,11 @@ def run(root, tag, seed, n_hist, trace_path, concurrent_every=3):
                     elif k == 'dashE': batch.append([cc, '-E', '/dev/null']); ops.append('notcacheable')
                     elif k == 'version': batch.append([cc, '--version']); ops.append('notcompile')
                     elif k == 'unsupported': batch.append(['/bin/true', '-c', 'x.c']); ops.append('unsupported')
+                    elif k == 'unreachable': batch.append(('raw', '/nonexistent-for-the-server/cc')); ops.append('unsupported')      # a compiler path the server cannot stat (client in another mount namespace)
                     elif k == 'zero': batch.append(None); ops.append('zero')
                 def one(a):
                     if a is None: sc.zero(); return
+                    if isinstance(a, tuple): sc.raw_compile(a[1], w, ['-c', 'x.c']); return
                     sc.compile(a, w)
                 if par:
                     with ThreadPoolExecutor(max_workers=4) as ex: list(ex.map(one, batch))
